@@ -12,7 +12,7 @@ Definitions only consumed by `Props/C20b.lean`:
 * `Coupled`  : the consistency invariant under which the two validated endpoint models describe ONE endpoint;
 * `prodStep` : the product — an input of the session layer is handled by `Model.Hsms.step Defects.code`; every output of that step
   that the GEM handler is hooked to becomes an input of `Model.GemComm.step`, in order
-  (`communicating` event ↦ `linkSelected`, `disconnected` event ↦ `linkLost`, `message_received` of a data message ↦ `rx s f w sys commack`);
+  (`connected` event ↦ `linkConnected`, `communicating` event ↦ `linkSelected`, `disconnected` event ↦ `linkLost`, `message_received` of a data message ↦ `rx s f w sys commack`);
 * `absFrames`: frames written by the product ↦ `Model.Pair.Msg`.
 
 ## What the abstraction forgets
@@ -20,22 +20,23 @@ Definitions only consumed by `Props/C20b.lean`:
 system bytes and both system counters (`St.ctr`, `State.nextSys`, `State.mySys` — the product does not even tie the two counters to each
 other), the open-request list `St.opn` (T6, Linktest, the select thread's pending Select.req), `St.disconnecting` (false in every coupled
 state: the local close is one product step), the two timer flags (determined by the communication state in a coupled state), the queue
-`State.queued`, every frame that is not Select.req / Select.rsp / S1F13 / S1F14 (Reject.req, Separate.req, Linktest, S9F5), events,
+`State.queued` (empty while a connection exists), every frame that is not Select.req / Select.rsp / S1F13 / S1F14 (Reject.req, Separate.req, Linktest, S9F5), events,
 callbacks, swallowed exceptions.
 
 Communication states: `Spec.E30Comm.Comm` has nine, `Model.Pair.Comm` five.  ENABLED, HOST_INITIATED_CONNECT, WAIT_CR_FROM_HOST and
 EQUIPMENT_INITIATED_CONNECT are not the destination of any transition of the shipped table (`never_entered`), so they are never current;
 `absComm` sends them to `notc` and `Coupled` excludes them.
 
-## The one place where the two endpoint models overlap: who runs the receiver thread
+## Who runs the receiver thread
 
-`Model.GemComm.State.link` means "connected AND selected" (its harness connects and selects in one step), and an S1F13 created while
-`link = false` is put into `queued` and written by the next `linkSelected`.  In the code the receiver thread runs as soon as the session is
-CONNECTED, selected or not.  `Coupled` ties `link` to `conn = SELECTED` (that is what the `communicating` event is), so in the product an
-S1F13 created by the delay timer while the session is NOT SELECTED or NOT CONNECTED is written at the next select; `Model.Pair` writes it
-at once when NOT SELECTED (as the code does) and forgets it when NOT CONNECTED (the code writes it first thing on the next connection,
-where the peer, still NOT SELECTED, rejects it).  The state components agree in every case; the frame statements of C20b carry the
-queued S1F13 as an explicit correction term (`stale`), empty whenever `queued = []`.
+`Model.GemComm.State` distinguishes `connected` (a transport connection exists: the protocol's receiver thread runs and writes what is
+put into the send queue) from `selected` (`communicating` has fired: inbound data reaches the handler).  `Coupled` ties them to the
+session state: `connected = (conn ≠ NOT_CONNECTED)`, `selected = (conn = SELECTED)`, and the session's `connected` / `communicating` /
+`disconnected` events become the handler inputs `linkConnected` / `linkSelected` / `linkLost`.  An S1F13 created by the delay timer is
+written at once while a connection exists (selected or not — exactly `Model.Pair`'s rule `conn ≠ nc`); created while NOT CONNECTED it
+is queued and written by the next `linkConnected`, as the first frames of the new connection, where `Model.Pair` forgets it (the peer,
+still NOT SELECTED, rejects it).  So `queued` is empty whenever a connection exists (part of `Coupled`), and the only frames the product
+writes beyond the pair model's are those flushed at link-up (`sim_linkUp`).
 -/
 namespace SecsModel.Proofs.PairBridge
 open SecsModel
@@ -68,13 +69,15 @@ instance (cfg : Cfg) : Decidable (Shipped cfg) := by unfold Shipped; infer_insta
 
 /-- the consistency invariant, as a Boolean over the finite components -/
 def coupledB (h : St) (g : State) (en : Bool) : Bool :=
-  (g.link == decide (h.conn = .selected))                       -- `link` = the session is SELECTED
+  (g.selected == decide (h.conn = .selected))                   -- `selected` = the session is SELECTED
+  && (g.connected == decide (h.conn ≠ .notConnected))           -- `connected` = a transport connection exists
   && occurs g.comm
   && (en == decide (g.comm ≠ .disabled))                        -- enabled iff not DISABLED
   && (g.t3Armed == decide (g.comm = .waitCra))                  -- T3 pending exactly in WAIT_CRA
   && (g.delayArmed == decide (g.comm = .waitDelay))             -- the delay pending exactly in WAIT_DELAY
   && (!decide (g.comm = .communicating) || decide (h.conn = .selected))   -- COMMUNICATING only while SELECTED
   && !h.disconnecting                                           -- not in the middle of a local close
+  && (decide (h.conn = .notConnected) || g.queued.isEmpty)      -- nothing waits in the send queue while a connection exists
 
 def Coupled (h : St) (g : State) (en : Bool) : Prop := coupledB h g en = true
 
@@ -86,7 +89,8 @@ instance (h : St) (g : State) (en : Bool) : Decidable (Coupled h g en) := by unf
 `i` is the session input being handled, `commack` what the body of an S1F14 decodes to -/
 def toGem (i : In) (commack : Option Nat) : Out → Option Input
   | .evt n =>
-    if n == "communicating" then some .linkSelected
+    if n == "connected" then some .linkConnected
+    else if n == "communicating" then some .linkSelected
     else if n == "disconnected" then some .linkLost
     else none
   | .deliverApp sys =>
@@ -151,15 +155,11 @@ def absGemOut : Output → Option Model.Pair.Msg
 /-- the session layer writes before it fires the event the handler reacts to -/
 def absFrames (ho : List Out) (go : List Output) : List Model.Pair.Msg := ho.filterMap absHsmsOut ++ go.filterMap absGemOut
 
-/-- the S1F13 queued while the link was not selected, written by the step that selects -/
-def stale (h : St) (g : State) (m : Model.Pair.Msg) : List Output :=
-  if h.conn = .notSelected ∧ (m = .selReq ∨ m = .selRsp) then g.queued.map Output.txS1F13 else []
-
 /-! ## closed computations on the generated tables -/
 
 theorem toGem_communicating (i : In) (ck : Option Nat) : toGem i ck (.evt "communicating") = some .linkSelected := by rfl
 theorem toGem_disconnected (i : In) (ck : Option Nat) : toGem i ck (.evt "disconnected") = some .linkLost := by rfl
-theorem toGem_connected (i : In) (ck : Option Nat) : toGem i ck (.evt "connected") = none := by rfl
+theorem toGem_connected (i : In) (ck : Option Nat) : toGem i ck (.evt "connected") = some .linkConnected := by rfl
 theorem toGem_app (st f : Int) (w : Bool) (s0 : Int) (d : Bool) (ck : Option Nat) (sys : Int) :
     toGem (.rxData st f w s0 d) ck (.deliverApp sys) = some (.rx st.toNat f.toNat w sys.toNat ck) := by rfl
 
